@@ -497,7 +497,15 @@ def rendezvous_table(ctx, facts):
         ctx.count(bodies=1)
         rets = [bb for bb in b.live_blocks() if b.term(bb)["k"] == "ret"]
         ent = variant_arms(b, "std::collections::hash_map::Entry", facts)
-        sta = [x for x in variant_arms(b, "collection::StreamState", facts) if "Entry<" not in (b.local_ty(x[1][0]) or "") and {"Waiting", "Ready", "Completed"} <= set(x[2])]
+        sta = [x for x in variant_arms(b, "collection::StreamState", facts) if "Entry<" not in (b.local_ty(x[1][0]) or "") and not (len(x[1]) == 1 and (b.local_ty(x[1][0]) or "").startswith("std::option::Option<")) and {"Waiting", "Ready", "Completed"} <= set(x[2])]
+        if not ent:
+            # `match map.get_mut(&key) { Some(state) => .., None => map.insert(key, ..) }`: None is the absent key
+            for sw_, pl_, arms_ in variant_arms(b, "std::option::Option", facts):
+                if re.search(r"HashMap::<K, V, S, A>::get_mut", str(flow.expr_of(b, {"cp": pl_}, max_depth=6))) and "None" in arms_ and "Some" in arms_ and len(pl_) == 1:
+                    ent = [(sw_, pl_, {"Vacant": arms_["None"], "Occupied": arms_["Some"]})]
+        if len(sta) > 1:
+            # the stored state may be matched through the Option that get_mut returned: keep the match whose arms are distinct
+            sta = [x for x in sta if len(set(x[2].values())) >= 2][:1]
         if len(ent) != 1 or len(sta) != 1:
             ctx.missing("RENDEZVOUS", f"{fn}: one match on the map entry and one on the stored StreamState (found {len(ent)}, {len(sta)})")
             continue
@@ -525,9 +533,9 @@ def rendezvous_table(ctx, facts):
             r = b.reachable(start, avoid=frozenset(avoid), avoid_edges=cut_for(state) if state else frozenset())
             return [x for x in rets if x in r]
 
-        writes_any = calls(r"mem::replace$|VacantEntry.*::insert$|OccupiedEntry.*::(insert|remove|remove_entry)$")
+        writes_any = calls(r"mem::replace$|VacantEntry.*::insert$|OccupiedEntry.*::(insert|remove|remove_entry)$|HashMap::<K, V, S, A>::(insert|remove)$")
         if fn == "add_stream":
-            ins = calls(r"VacantEntry.*::insert$", lambda a: "'Ready')" in a[1] and "('arg', 3)" in a[1])
+            ins = calls(r"VacantEntry.*::insert$|HashMap::<K, V, S, A>::insert$", lambda a: "'Ready')" in a[-1] and "('arg', 3)" in a[-1])
             rep = calls(r"mem::replace$|OccupiedEntry.*::insert$", lambda a: "'Ready')" in a[1] and "('arg', 3)" in a[1])
             wk = calls(r"Waker::wake(_by_ref)?$", lambda a: "mem::replace" in a[0] or re.search(r"OccupiedEntry.*::insert", a[0]) is not None)
             ok = not returns_from(earms["Vacant"], ins) and bool(ins)
@@ -553,7 +561,7 @@ def rendezvous_table(ctx, facts):
             w = [x for x in writes_any if x in b.reachable(sarms["Completed"])]
             ok = not r and not w
             ctx.ob("RENDEZVOUS", "add_waker:Completed=>panic", ok, "a second reader of a consumed channel is refused loudly" if ok else "asking again for a stream that was already handed out does not panic: the second receiver waits forever or gets another stream", site_of(b, sarms["Completed"]))
-            ins = calls(r"VacantEntry.*::insert$", lambda a: "'Waiting')" in a[1] and "('arg', 3)" in a[1])
+            ins = calls(r"VacantEntry.*::insert$|HashMap::<K, V, S, A>::insert$", lambda a: "'Waiting')" in a[-1] and "('arg', 3)" in a[-1])
             ok = bool(ins) and not returns_from(earms["Vacant"], ins)
             ctx.ob("RENDEZVOUS", "add_waker:absent=>Waiting(waker)", ok, "a receiver that comes first parks its waker" if ok else "a receiver polling before the stream arrived does not leave Waiting(waker) in the map", site_of(b, earms["Vacant"]))
 
